@@ -182,6 +182,43 @@ Pairs == {<<a, b>> \in PairSeeds \X PairSeeds : a # b}   \* ordered here; gen/co
 (***************************************************************************)
 Triples == {<<S("file_small", f, "alias_other"), S("bb_small", "bit", "flip_small"), S("gd_small", "bg_free_blocks", "plus1")>> : f \in {"ee_start", "ib0"}}
 
+(***************************************************************************)
+(* Relocated bitmaps: closed multi-field corruptions of a group descriptor *)
+(* POINTER.  The inode (block) bitmap pointer of a group whose bitmap the  *)
+(* tools never read (INODE_UNINIT / BLOCK_UNINIT, descriptor checksum      *)
+(* valid) is redirected onto a piece of FIXED metadata, the block the      *)
+(* bitmap used to occupy is released in its group's block bitmap, that     *)
+(* group's free count is adjusted and every checksum is recomputed: the    *)
+(* only invariant left broken is "a descriptor's objects do not lie on     *)
+(* fixed metadata" (NotFixedMeta) -- nothing that pass 5 would trip over.  *)
+(* The targets cover every kind of fixed metadata (superblock, group       *)
+(* descriptor table, reserved GDT blocks, and the bitmaps / inode table of *)
+(* another group) of group 0 ("first"), of the nearest EARLIER group that  *)
+(* has one and of the nearest LATER group that has one: a location check   *)
+(* that knows the fixed metadata of only some groups must not pass.        *)
+(* These recipes are not part of Singles/Catalogue (they only make sense   *)
+(* together); gen/corrupt.py binds the three roles of one Reloc through    *)
+(* the same group.                                                         *)
+(***************************************************************************)
+FixedKind   == {"sb", "gdt", "rsvgdt", "bb", "ib", "it"}
+Where       == {"first", "earlier", "later"}
+FixedTarget == {k \o "_" \o w : k \in FixedKind, w \in Where}
+PtrField(b) == IF b = "ib" THEN "bg_inode_bitmap" ELSE "bg_block_bitmap"
+Relocs == {<<S("gd_unread_" \o b, PtrField(b), t), S("bb_old_" \o b, "bit", "flip_old"), S("gd_old_" \o b, "bg_free_blocks", "plus1")>> :
+              b \in {"ib", "bb"}, t \in FixedTarget}
+
+(***************************************************************************)
+(* The reserved-GDT map of the resize inode: entry k of its double         *)
+(* indirect block names reserved GDT block k of group 0 (and that block    *)
+(* lists its backups).  One corruption of the first, of the entry at one   *)
+(* quarter and of the last entry of that map (a walker that stops early    *)
+(* must not pass).  Single-field, but kept outside Singles/Catalogue like  *)
+(* the Relocs: only C02 runs them (closed set C02Closed).                  *)
+(***************************************************************************)
+ResizeMap == {<<S("resize_dind", f, v)>> : f \in {"rsv_first", "rsv_quarter", "rsv_last"}, v \in {"zero", "plus1"}}
+
+C02Closed == Relocs \cup ResizeMap
+
 ASSUME PairSeeds \subseteq Singles
 ASSUME \A t \in Triples : \A k \in 1..3 : t[k] \in Singles
 =============================================================================
